@@ -775,6 +775,7 @@ class C15:
                         for o_ in (ox, oy):
                             if "messages" in o_:
                                 o_["messages"] = o_["messages"][:1]
+                            o_.pop("value", None)      # what Vm::execute hands back (a function object with its address): not compared
                         if x["events"] != y["events"] or ox != oy:
                             v = {"class": "reset-not-fresh", "msg": "snippet %d after reset differs from the same snippet on a new interpreter: %s vs %s" % (
                                 last_reset + 1 + j, json.dumps([x["events"], ox])[:300], json.dumps([y["events"], oy])[:300])}
